@@ -1,5 +1,5 @@
-import AiocoapModel.Basic.Bytes
-/-! Line protocol for C10 (not built yet). -/
+import AiocoapModel.Driver.MsgLayer
+/-! C10 is decided on the shared message-layer model. -/
 namespace Aiocoap
-def handleC10 (_args : List String) : String := "out-of-model"
+def handleC10 (args : List String) : String := MsgLayer.handleMsgLayer args
 end Aiocoap
